@@ -22,6 +22,7 @@ uint64_t vs_u64(const char* n) { return next(n); }
 void vs_assume(int c) { if (!c) { printf("SKIP\n"); fflush(stdout); _Exit(0); } }
 void vs_assert(int c, const char* msg) { if (!c) { failed = 1; printf("FAIL %s\n", msg); fflush(stdout); } }
 uint32_t vs_choose(uint32_t n) { uint32_t v = (uint32_t) next("choose"); return n ? v % n : 0; }
+void vs_setenv(const char* n, const char* v) { setenv(n, v, 1); }
 void vs_note(const char* w, uint64_t v) { printf("NOTE %s %llu\n", w, (unsigned long long) v); }
 }
 int main(int argc, char** argv) {
@@ -29,6 +30,11 @@ int main(int argc, char** argv) {
    char line[1 << 16];
    while (fgets(line, sizeof line, stdin)) {
       char* save; char* nm = strtok_r(line, " \n", &save); if (!nm) continue;
+      if (nm[0] == '@') {       // @global hexbytes : preset a global buffer of the wrapper TU
+         char* hex = strtok_r(nullptr, " \n", &save); unsigned char* g = (unsigned char*) dlsym(RTLD_DEFAULT, nm + 1);
+         if (g && hex) for (size_t i = 0; hex[2 * i] && hex[2 * i + 1]; ++i) { unsigned v; sscanf(hex + 2 * i, "%2x", &v); g[i] = (unsigned char) v; }
+         continue;
+      }
       auto& v = vals[nm]; char* t;
       while ((t = strtok_r(nullptr, " \n", &save))) v.push_back(strtoull(t, nullptr, 0));
    }
